@@ -25,24 +25,24 @@ import (
 func init() { checkers["C13"] = checkC13 }
 
 type c13member struct {
-	closeN      int
-	closeT      int64
-	closed      bool // Start returned
-	retN        int
-	ackPos      map[int]uint64
-	nondocPos   map[int]uint64
-	inAck       map[int]bool
-	absorbSys   map[int]map[uint64]bool
-	sid         map[int]string
-	openStreams map[int]bool
-	closeReq    map[int]bool
-	conns       map[string]bool
-	faultAfter  bool
-	state       string
-	parkedAt    bool
-	saving      bool
-	rebalancing bool
-	closeInRebalance bool
+	closeN                 int
+	closeT                 int64
+	closed                 bool // Start returned
+	retN                   int
+	ackPos                 map[int]uint64
+	nondocPos              map[int]uint64
+	inAck                  map[int]bool
+	absorbSys              map[int]map[uint64]bool
+	sid                    map[int]string
+	openStreams            map[int]bool
+	closeReq               map[int]bool
+	conns                  map[string]bool
+	faultAfter             bool
+	state                  string
+	parkedAt               bool
+	saving                 bool
+	rebalancing            bool
+	closeInRebalance       bool
 	rebalanceAfterShutdown bool
 }
 
